@@ -120,7 +120,7 @@ func checkC06(c *Ctx) (int, error) {
 	}
 	// the trailer checksums at their implementations' classic pitfall (see execBulkChecksum)
 	for bi, set := range []WSetting{{Kind: "zlib", Level: -2, Window: 32768}, {Kind: "zlib", Level: 1, Window: 32768}, {Kind: "gzip", Level: -2, Window: 32768}, {Kind: "zlib", Level: 6, Window: 32768}} {
-		cs := &WCase{ID: fmt.Sprintf("C06w-bulk-%d", bi), Set: set, Tag: settingTag(set) + "|checksum-bulk", Bulk: 1, Data: DataSpec{Class: "ones", Seed: int64(bi), Len: 1}}
+		cs := &WCase{ID: fmt.Sprintf("C06w-bulk-%d", bi), Set: set, Tag: settingTag(set) + "|checksum-bulk", Bulk: 1, Data: DataSpec{Class: "ones", Seed: int64(bi), Len: 1, Period: map[bool]int{true: 2, false: 0}[c.Tier == "thorough"]}}
 		wcases = append(wcases, cs)
 		c.ev.nontrivial(cs.Tag)
 	}
@@ -272,7 +272,7 @@ func checkC07(c *Ctx) (int, error) {
 		cases = append(cases, cs)
 		c.ev.nontrivial(cs.Tag)
 	}
-	for _, ct := range conts {
+	for ci, ct := range conts {
 		b, err := ct.s.Build()
 		if err != nil {
 			return 0, err
@@ -294,6 +294,20 @@ func checkC07(c *Ctx) (int, error) {
 			cut := p > 0 && p != firstEnd
 			add(ct, []Mutation{{Op: "trunc", Pos: p}}, cut, fmt.Sprintf("cut%d", p))
 		}
+		// every PAIR of bits of the trailer (the last member's 8 bytes of gzip, the 4 of zlib): damage
+		// that is coordinated between the checksum and the length word must not cancel out
+		tl := 4
+		if ct.kind == "gzip" {
+			tl = 8
+		}
+		if len(b) > tl && ci < 4 {
+			t0 := (len(b) - tl) * 8
+			for i := 0; i < tl*8; i++ {
+				for j := i + 1; j < tl*8; j++ {
+					add(ct, []Mutation{{Op: "flip", Pos: t0 + i}, {Op: "flip", Pos: t0 + j}}, false, fmt.Sprintf("trailerpair%d-%d", i, j))
+				}
+			}
+		}
 		for k := 0; k < nExtra/len(conts)+1; k++ {
 			switch k % 3 {
 			case 0:
@@ -305,7 +319,7 @@ func checkC07(c *Ctx) (int, error) {
 			}
 		}
 	}
-	c.ev.Rule = fmt.Sprintf("%d containers (gzip with/without header fields and with two members, zlib with/without dictionary; compress/* and fastgo encoders; payloads up to %d bytes): every single bit flip, every truncation point, plus %d double flips / substitutions / flip+cut, Read sizes {1,2,8,4096}, rotating acceleration levels; distinct by (container, mutation)", len(conts), maxPayload, nExtra)
+	c.ev.Rule = fmt.Sprintf("%d containers (gzip with/without header fields and with two members, zlib with/without dictionary; compress/* and fastgo encoders; payloads up to %d bytes): every single bit flip, every truncation point, every pair of trailer bits (first four containers), plus %d double flips / substitutions / flip+cut, Read sizes {1,2,8,4096}, rotating acceleration levels; distinct by (container, mutation)", len(conts), maxPayload, nExtra)
 	c.ev.Exhaustive = true
 	for _, cs := range spread(cases) {
 		c.ev.sample(map[string]interface{}{"case": cs.Tag})
@@ -380,6 +394,10 @@ func checkC08(c *Ctx) (int, error) {
 				e.Hdr.Extra = make([]byte, 60+rng.Intn(200))
 				rng.Read(e.Hdr.Extra)
 				e.Hdr.Name = latin1(rng, 20+rng.Intn(60), true) + ".txt"
+			case 1:
+				// a BGZF block header (the blocked gzip of bioinformatics files): only an Extra field with
+				// the subfield 'B','C', length 2, and the block size; every block of such a file looks like this
+				e.Hdr = &GzHeader{Extra: []byte{'B', 'C', 2, 0, byte(27 + 10*mi), byte(mi)}, OS: 255}
 			}
 			// the optional header CRC (no Go writer emits it; readers must verify it) - cannot be added to
 			// a member that is written through Reset of a shared Writer, so those stay without
